@@ -742,6 +742,12 @@ func (x *Exec) evalSpecCall2(sc *specCtx, e *ast.CallExpr) Value {
 		body := x.evalBool(&nsc, e.Args[3])
 		rng := and(mk(SBool, "<=", lo, Term{q, SInt}), mk(SBool, "<", Term{q, SInt}, hi))
 		if name == "forall" {
+			// s[i] is elem[arr][off+i]: quantify over the absolute index k = off+i instead, so that the solver's
+			// trigger is elem[arr][k] and matches every index term (a trigger `off+i` is not matched by `off+(b+1)`).
+			if off, ok := sliceOffsetOf(body.S, q); ok {
+				sub := fmt.Sprintf("(- %s %s)", q, off)
+				return Scalar{Term{fmt.Sprintf("(forall ((%s Int)) (=> %s %s))", q, replaceToken(rng.S, q, sub), replaceToken(body.S, q, sub)), SBool}, boolT}
+			}
 			return Scalar{Term{fmt.Sprintf("(forall ((%s Int)) (=> %s %s))", q, rng.S, body.S), SBool}, boolT}
 		}
 		return Scalar{Term{fmt.Sprintf("(exists ((%s Int)) (and %s %s))", q, rng.S, body.S), SBool}, boolT}
@@ -1142,6 +1148,14 @@ func (x *Exec) matchEvent(sc *specCtx, f ast.Expr, ev *Event) Term {
 			if ev.Callee == nil {
 				return tFalse
 			}
+			// channels of different element types are different channels
+			if gt, wt := ev.Callee.GoType(), v.GoType(); gt != nil && wt != nil {
+				if gc, ok := gt.Underlying().(*types.Chan); ok {
+					if wc, ok := wt.Underlying().(*types.Chan); ok && !types.Identical(gc.Elem(), wc.Elem()) {
+						return tFalse
+					}
+				}
+			}
 			got := x.flatten(ev.Callee)[0]
 			return eq(got, want)
 		}
@@ -1273,6 +1287,116 @@ func (x *Exec) matchEvent(sc *specCtx, f ast.Expr, ev *Event) Term {
 	panic(engineErr("cannot interpret %s as a callee", exprString(f)))
 }
 
+func (x *Exec) isFuncField(sc *specCtx, se *ast.SelectorExpr) (res bool) {
+	defer func() {
+		if r := recover(); r != nil {
+			res = false
+		}
+	}()
+	if id, ok := se.X.(*ast.Ident); ok {
+		if _, isVar := sc.lookupVar(id.Name); !isVar && sc.importedPkg(id.Name) != nil {
+			return false
+		}
+	}
+	base := x.evalSpec(sc, se.X)
+	var t types.Type
+	switch b := base.(type) {
+	case PtrV:
+		_, t = subLeaves(b.Root, b.Path)
+	case StructV:
+		t = b.GoType()
+	default:
+		return false
+	}
+	if t == nil {
+		return false
+	}
+	if _, ft, ok := fieldPath(t, se.Sel.Name); ok {
+		_, isFn := ft.Underlying().(*types.Signature)
+		return isFn
+	}
+	return false
+}
+
+// sliceOffsetOf finds a subterm (+ OFF q) of body (OFF free of q) and returns OFF.
+func sliceOffsetOf(body, q string) (string, bool) {
+	from := 0
+	for {
+		i := strings.Index(body[from:], "(+ ")
+		if i < 0 {
+			return "", false
+		}
+		i += from
+		j := i + 3
+		// one balanced s-expression (or atom) starting at j
+		k := j
+		if k < len(body) && body[k] == '(' {
+			depth := 0
+			for k < len(body) {
+				if body[k] == '(' {
+					depth++
+				} else if body[k] == ')' {
+					depth--
+					if depth == 0 {
+						k++
+						break
+					}
+				}
+				k++
+			}
+		} else {
+			for k < len(body) && body[k] != ' ' && body[k] != ')' {
+				k++
+			}
+		}
+		off := body[j:k]
+		if strings.HasPrefix(body[k:], " "+q+")") && !containsToken(off, q) && off != "0" {
+			return off, true
+		}
+		from = i + 3
+	}
+}
+
+func isTokenChar(c byte) bool {
+	return c != ' ' && c != '(' && c != ')'
+}
+
+func containsToken(s, tok string) bool {
+	from := 0
+	for {
+		i := strings.Index(s[from:], tok)
+		if i < 0 {
+			return false
+		}
+		i += from
+		if (i == 0 || !isTokenChar(s[i-1])) && (i+len(tok) == len(s) || !isTokenChar(s[i+len(tok)])) {
+			return true
+		}
+		from = i + 1
+	}
+}
+
+func replaceToken(s, tok, by string) string {
+	var b strings.Builder
+	from := 0
+	for {
+		i := strings.Index(s[from:], tok)
+		if i < 0 {
+			b.WriteString(s[from:])
+			return b.String()
+		}
+		i += from
+		if (i == 0 || !isTokenChar(s[i-1])) && (i+len(tok) == len(s) || !isTokenChar(s[i+len(tok)])) {
+			b.WriteString(s[from:i])
+			b.WriteString(by)
+			from = i + len(tok)
+		} else {
+			b.WriteString(s[from : i+1])
+			from = i + 1
+		}
+	}
+}
+
 func nameMatches(evName, want string) bool {
 	if evName == want {
 		return true
@@ -1331,6 +1455,9 @@ func isMethodSel(sc *specCtx, f ast.Expr) bool {
 	se, ok := f.(*ast.SelectorExpr)
 	if !ok {
 		return false
+	}
+	if sc.x.isFuncField(sc, se) {
+		return false // recv.field holding a function value: the call has no receiver argument
 	}
 	if id, ok := se.X.(*ast.Ident); ok {
 		if _, isVar := sc.lookupVar(id.Name); !isVar && sc.importedPkg(id.Name) != nil {
